@@ -118,7 +118,7 @@ def SecSt.put (s : SecSt V D) (name : String) (p : PropSt V D) : SecSt V D :=
 /-- `util::checkEntityName` -/
 def checkName (name : String) : Option Err :=
   if name.isEmpty then some .emptyString else
-  if name.contains '/' then some .invalidName else none
+  if name.toList.contains '/' then some .invalidName else none
 
 inductive Op (V D : Type)
   | createDtype (name : String) (dt : DType)                -- createProperty(name, DataType)
@@ -139,10 +139,9 @@ variable {V D : Type} (zero : DType → V)
 /-- `SectionHDF5::createProperty(name, dtype, shape)`: `property_group(true)`, then `createData` -/
 def SecSt.newDataset (s : SecSt V D) (name : String) (dt : DType) (n : Nat) : SecSt V D × Option Err :=
   if !s.writable && !s.grp then (s, some .h5Error) else       -- the group cannot be created in a read-only file
-  let s := { s with grp := true }
-  if !dt.hasFileType then (s, some .stdInvalidArgument) else  -- data_type_to_h5_filetype(dtype)
-  if !s.writable then (s, some .h5Error) else                 -- H5Dcreate
-  ({ s with props := s.props ++ [(name, { dtype := dt, cells := List.replicate n (zero dt) })] }, none)
+  if !dt.hasFileType then ({ s with grp := true }, some .stdInvalidArgument) else  -- data_type_to_h5_filetype(dtype)
+  if !s.writable then ({ s with grp := true }, some .h5Error) else                 -- H5Dcreate
+  ({ s with grp := true, props := s.props ++ [(name, { dtype := dt, cells := List.replicate n (zero dt) })] }, none)
 
 /-- run a mutator of one property; a call through an empty handle raises UninitializedEntity -/
 def SecSt.onProp (s : SecSt V D) (name : String) (f : PropSt V D → PropSt V D × Option Err) : SecSt V D × Option Err :=
@@ -150,35 +149,38 @@ def SecSt.onProp (s : SecSt V D) (name : String) (f : PropSt V D → PropSt V D 
   | none => (s, some .uninitializedEntity)
   | some p => let r := f p; (s.put name r.1, r.2)
 
+/-- the front-end checks of the three `Section::createProperty` overloads: `checkEntityName`, then `hasProperty` -/
+def SecSt.createGuard (s : SecSt V D) (name : String) : Option Err :=
+  match checkName name with
+  | some e => some e
+  | none => if (s.find name).isSome then some .duplicateName else none
+
+/-- `SectionHDF5::createProperty(name, value(s))`: make the data set, then `p->values(…)` -/
+def SecSt.createWith (s : SecSt V D) (name : String) (dt : DType) (n : Nat) (vs : List (Variant V)) : SecSt V D × Option Err :=
+  match s.newDataset zero name dt n with
+  | (s1, some e) => (s1, some e)
+  | (s1, none) => s1.onProp name fun p => p.assign zero vs
+
 /-- one call of the public API on the section / one of its properties -/
 def step (s : SecSt V D) : Op V D → SecSt V D × Option Err
   | .createDtype name dt =>
-    match checkName name with
+    match s.createGuard name with
     | some e => (s, some e)
-    | none =>
-      if (s.find name).isSome then (s, some .duplicateName) else
-      s.newDataset zero name dt Nix.Gen.defaultPropertySize
+    | none => s.newDataset zero name dt Nix.Gen.defaultPropertySize
   | .createValues name vs =>
     match vs with
     | [] => (s, some .stdRuntime)
     | v0 :: _ =>
-      match checkName name with
+      match s.createGuard name with
       | some e => (s, some e)
       | none =>
-        if (s.find name).isSome then (s, some .duplicateName) else
         -- SectionHDF5::createProperty(name, values): every value must have the type of the first
         if vs.any (fun v => v.ty ≠ v0.ty) then (s, some .stdInvalidArgument) else
-        match s.newDataset zero name v0.ty vs.length with
-        | (s1, some e) => (s1, some e)
-        | (s1, none) => s1.onProp name fun p => p.assign zero vs
+        s.createWith zero name v0.ty vs.length vs
   | .createValue name v =>
-    match checkName name with
+    match s.createGuard name with
     | some e => (s, some e)
-    | none =>
-      if (s.find name).isSome then (s, some .duplicateName) else
-      match s.newDataset zero name v.ty Nix.Gen.defaultPropertySize with
-      | (s1, some e) => (s1, some e)
-      | (s1, none) => s1.onProp name fun p => p.assign zero [v]
+    | none => s.createWith zero name v.ty Nix.Gen.defaultPropertySize [v]
   | .assign name vs =>
     s.onProp name fun p =>
       if s.writable then p.assign zero vs else
